@@ -204,41 +204,18 @@ def run(ctx):  # noqa: C901, PLR0912, PLR0915
 
 
 def _contains_shape(fn):
-    body = [s for s in fn.body if not (isinstance(s, ast.Expr) and isinstance(s.value, ast.Constant))]
-    if len(body) != 3:
-        return False, f'__contains__ has {len(body)} statements, expected root test, element loop, return True'
-    root_if, loop, ret = body
-    if not (isinstance(root_if, ast.If) and unparse(root_if.test) in ('self.root != other.root', 'other.root != self.root',
-                                                                    'self._root != other._root')
-            and len(root_if.body) == 1 and isinstance(root_if.body[0], ast.Return)
-            and isinstance(root_if.body[0].value, ast.Constant) and root_if.body[0].value.value is False):
-        return False, 'the root comparison does not reject on difference'
-    if not (isinstance(ret, ast.Return) and isinstance(ret.value, ast.Constant) and ret.value.value is True):
-        return False, 'the function does not end with return True'
-    if not (isinstance(loop, ast.For) and 'url_elements' in unparse(loop.iter)):
-        return False, 'no loop over url_elements'
-    var = loop.target.id if isinstance(loop.target, ast.Name) else None
-    stmts = loop.body
-    own = None
-    for s in stmts:
-        if isinstance(s, ast.Assign) and unparse(s.value) == f'getattr(self, {var})':
-            own = s.targets[0].id
-    ifs = [s for s in stmts if isinstance(s, ast.If)]
-    if own is None or len(ifs) != 1:
-        return False, 'loop body is not `own = getattr(self, name); if own is not None: ...`'
-    outer = ifs[0]
-    if unparse(outer.test) != f'{own} is not None' or outer.orelse:
-        return False, f'an unset own element must accept everything (test is {unparse(outer.test)})'
-    inner = outer.body
-    if not (len(inner) == 1 and isinstance(inner[0], ast.If) and not inner[0].orelse):
-        return False, 'inner comparison missing'
-    t = unparse(inner[0].test)
-    if t not in (f'{own} != getattr(other, {var})', f'getattr(other, {var}) != {own}'):
-        return False, f'inner test {t} is not an inequality of own and other element'
-    r = inner[0].body
-    if not (len(r) == 1 and isinstance(r[0], ast.Return) and isinstance(r[0].value, ast.Constant) and r[0].value.value is False):
-        return False, 'a differing element does not reject'
-    return True, '__contains__ rejects iff root differs or an own element is set and differs from the other one'
+    """Translate __contains__ into a formula and compare with: root equal and forall element (own unset or equal)."""
+    from engine.boolform import function_formula, mk
+    got = function_formula(fn)
+    want = mk('and', [('atom', 'self.root == other.root'),
+                      ('forall', 'self.url_elements',
+                       mk('or', [('atom', 'getattr(self, $0) is None'),
+                                 ('atom', 'getattr(self, $0) == getattr(other, $0)')]))])
+    alt = mk('and', [('atom', 'other.root == self.root'), want[2] if want[0] == 'and' else want])
+    if got == want or got == alt:
+        return True, '__contains__ rejects iff root differs or an own element is set and differs from the other one'
+    return False, (f'__contains__ is {got}; required: roots equal and for every element of url_elements (own element unset '
+                   f'or equal to the other one)')
 
 
 # ---------------------------------------------------------------------- self-test seeds
@@ -268,6 +245,9 @@ SEEDS = [
          (_L, "            if my_attr is not None:\n                if my_attr != getattr(other, attr_name):\n                    return False",
           "            if my_attr != getattr(other, attr_name):\n                return False")),
     seed('__contains__ ignores root', 'C16.R4', (_L, "        if self.root != other.root:\n            return False\n        for attr_name", "        for attr_name")),
+    seed('control: __contains__ without the local variable', 'C16.R4',
+         (_L, "            my_attr = getattr(self, attr_name)\n            if my_attr is not None:\n                if my_attr != getattr(other, attr_name):\n                    return False",
+          "            if getattr(self, attr_name) is not None and getattr(self, attr_name) != getattr(other, attr_name):\n                return False"), control=True),
     seed('control: rename loop variable in __contains__', 'C16.R4',
          (_L, "        for attr_name in self.url_elements:\n            my_attr = getattr(self, attr_name)\n            if my_attr is not None:\n                if my_attr != getattr(other, attr_name):",
           "        for name in self.url_elements:\n            my_attr = getattr(self, name)\n            if my_attr is not None:\n                if my_attr != getattr(other, name):"), control=True),
